@@ -22,6 +22,7 @@ Definition FINISH := E_FINISH.
 Record xcfg := mkcfg {
   c_requeue_scan_checks_head : bool;
   c_scan_job_checks_head : bool;
+  c_scan_checks_unord_cap : bool;          (* finding F9: do_scan passes over a candidate when unord_q is full *)
   c_requeue_retr_checks_head : bool;
   c_stale_drops_link : bool;
   c_retr_done_drops_link : bool;
@@ -30,7 +31,7 @@ Record xcfg := mkcfg {
   c_finish_drops_link : bool }.
 
 Definition gen_cfg : xcfg :=
-  mkcfg requeue_scan_checks_head scan_job_checks_head requeue_retr_checks_head stale_drops_link retr_done_drops_link
+  mkcfg requeue_scan_checks_head scan_job_checks_head scan_checks_unord_cap requeue_retr_checks_head stale_drops_link retr_done_drops_link
         retr_abort_drops_link advance_drops_link finish_drops_link.
 
 (* ---- decidable equalities ------------------------------------------------- *)
@@ -445,6 +446,9 @@ Definition reorder (st : xstate) : option xstate :=
   else None.
 
 (* ---- do_scan ------------------------------------------------------------------------------ *)
+(* size(unord_q) >= unord_cap: the capacity unord_q was allocated with in init() *)
+Definition unord_cap (st : xstate) : N := cap_unord_q (x_total_in st) (x_num_worker st) (x_total_out st).
+Definition unord_full (st : xstate) : bool := unord_cap st <=? N.of_nat (length (unord_q st)).
 Definition scan0 (st : xstate) : option xstate :=
   if selects TScan st then
     match qmin d_pos pos_lt (x_scan_q st) with
@@ -471,6 +475,8 @@ Definition scan1 (cfg : xcfg) (s : dbs) (att : option N) (found : bool) (s' : db
       let st :=
         if pos_le (d_pos s') (d_pos (x_parser_bs st)) || (c_scan_job_checks_head cfg && (d_off s' <? x_head_offs st))
         then give_unit st
+        else if c_scan_checks_unord_cap cfg && unord_full st
+        then give_unit st                  (* no room in unord_q: the candidate is passed over *)
         else
           let id := x_next_uid st in
           set_retr_q (mkrjob (d_pos s') s' (Some id) :: x_retr_q st)
